@@ -83,3 +83,28 @@ Proof.
     rewrite sei_next_msg by assumption. cbn [map app fst snd]. f_equal.
     apply (IH (seen + 1) extra Hmore). right. lia.
 Qed.
+
+(* ---- the 2^32 boundary of the 0xFF-extension coding ---- *)
+Lemma u32_loop_ff n : forall fuel acc b rest, (n < fuel)%nat -> b <> 255 ->
+  read_u32_loop fuel (repeat 255 n ++ b :: rest) acc =
+  if acc + 255 * N.of_nat n + b <? two32 then Some (OK (acc + 255 * N.of_nat n + b, rest)) else Some (ERR InvalidData).
+Proof.
+  induction n as [|n IH]; intros fuel acc b rest Hf Hb; (destruct fuel as [|f]; [lia|]); cbn [repeat app read_u32_loop].
+  - replace (acc + 255 * N.of_nat 0 + b) with (acc + b) by lia.
+    destruct (N.leb_spec two32 (acc + b)); destruct (N.ltb_spec (acc + b) two32); try lia; [reflexivity|].
+    destruct (N.eqb_spec b 255); [contradiction|reflexivity].
+  - destruct (N.leb_spec two32 (acc + 255)) as [Hov|Hok].
+    + destruct (N.ltb_spec (acc + 255 * N.of_nat (S n) + b) two32); [lia|reflexivity].
+    + change (255 =? 255) with true. cbv iota. rewrite IH by (try lia; exact Hb).
+      replace (acc + 255 + 255 * N.of_nat n + b) with (acc + 255 * N.of_nat (S n) + b) by lia. reflexivity.
+Qed.
+
+Theorem read_u32_boundary nm n b rest t : b <> 255 ->
+  read_u32 nm (mk_bsrc (repeat 255 n ++ b :: rest) t) =
+  if 255 * N.of_nat n + b <? two32 then OK (255 * N.of_nat n + b, mk_bsrc rest t)
+  else ERR (ReaderErrorFor nm InvalidData).
+Proof.
+  intros Hb. unfold read_u32. cbn [sbytes stail].
+  rewrite (u32_loop_ff n _ 0 b rest); [|rewrite app_length, repeat_length; cbn [length]; lia|exact Hb].
+  rewrite N.add_0_l. destruct (255 * N.of_nat n + b <? two32); reflexivity.
+Qed.
